@@ -29,6 +29,12 @@ FIXED = [
  ("F24", "C09", "70248e1", "format_qcow2 panicked (index past the end of its single refcount block) for big virtual sizes with small clusters / wide refcounts", "regress/C09/format-panic-single-refblock.json"),
  ("F25", "C13", "a4bfc76", "read_at/write_at computed offset+len-1 before validating: overflow panic for len 0 at offset 0 and for offsets near u64::MAX; a zero-length write allocated a cluster", "regress/C13/read-offset-overflow.json"),
  ("F26", "C13", "17716e3", "discard on a read-only device returned Ok, unmapped clusters in ram and sent hole-punch requests to the file", "regress/C13/discard-on-read-only.json"),
+ ("F27", "C14", "79d1aec", "from_buf sliced the first 105 bytes of a buffer without checking its length (panic on short files)", "regress/C14/header_bytes-0.json"),
+ ("F28", "C14", "561d5c7", "from_buf accepted versions above 3, encrypted images (crypt_method), refcount_order above 6, invalid v3 header_length and non-deflate compression types: such images were opened and misread or panicked in the geometry derivation", "regress/C14/unsupported_feature-0.json"),
+ ("F29", "C14", "01f63d9", "a feature-name-table extension whose length is not a multiple of 48 made from_buf index a short chunk (panic)", "regress/C14/mutated_image-1.json"),
+ ("F30", "C14", "cd1777d", "Qcow2Dev::new allocated the refcount table with the size the header claims (abort / huge allocation) and asserted on zero-sized tables; qcow2_alloc_dev unwrapped the error; the header buffer was parsed uninitialised when the file is shorter than it", "regress/C14/mutated_image-2.json"),
+ ("F31", "C14", "097ea4b", "free_clusters unwrapped a refcount decrement that fails on corrupted refcounts and add_cache_slice added offsets without overflow check (panics on malformed tables)", "regress/C14/mutated_image-4.json"),
+ ("F32", "C14", "211bd7f", "cache slice parameters that do not fit the image's cluster size hit a debug assertion / produced bogus geometry instead of an error", "regress/C14/C14-b200b5183831c3bf.json"),
  ("F11", "C03", "c069255", "writing to a zero-flagged cluster with a preallocation leaked the preallocated host cluster", "regress/C03/zero-prealloc-write-leaks.json"),
 ]
 KNOWN = [
